@@ -365,12 +365,13 @@ class World:
         r = ref or T["OutputReference"](b"\x00" * 32, 0)
         return T["Transaction"]([T["Input"](r, sig)], [T["Output"](v, self.keys.public_key(k)) for (v, k) in outs])
 
-    def mine(self, parent_hash, height, ts, target, txs, pow_ok=True, ev_ok=True, merkle_ok=True, nonce0=0, forge="", alt_tip=None):
+    def mine(self, parent_hash, height, ts, target, txs, pow_ok=True, ev_ok=True, merkle_ok=True, nonce0=0, forge="", alt_tip=None, txids=None):
         """forge (only with ev_ok=False): "" = one bit of the evidence hash flipped; "summary_hash" = a coherent forgery whose
         summary hash is *not* scrypt of the summary (sample and evidence hash derived from it consistently);
         "sample" = wrong sample bytes with a consistent evidence hash."""
         T = self.T
-        mr = indep.merkle_root([indep.txid(t) for t in txs]) if txs else b"\x11" * 32
+        # (txids: the ids under which a receiver files the transactions when they arrive in another encoding than the canonical one)
+        mr = indep.merkle_root(txids if txids is not None else [indep.txid(t) for t in txs]) if txs else b"\x11" * 32
         if not merkle_ok:
             mr = bytes([mr[0] ^ 1]) + mr[1:]
         scr = self.cfg.scrypt()
